@@ -67,3 +67,44 @@ def biv_views(p, sh):
     if not cols:
         views.append(("cov", CovincularPatt(Perm(p), rows)))
     return views
+
+
+class _EnoughOutput(BaseException):
+    pass
+
+
+def run_cli(argv, max_prints=None):
+    """Run the command line the way a user does - through the library's own argument parser and
+    the handler it dispatches to - and return what was printed.  `count` never ends by itself:
+    max_prints stops it after that many print calls."""
+    import contextlib
+    import io
+
+    from permuta import cli
+
+    args = cli.get_parser().parse_args(list(argv))
+    buf = io.StringIO()
+    calls = [0]
+
+    def limited_print(*a, **k):
+        calls[0] += 1
+        if max_prints is not None and calls[0] > max_prints:
+            raise _EnoughOutput()
+        k.pop("flush", None)
+        print(*a, **k)
+
+    had = "print" in vars(cli)
+    old = vars(cli).get("print")
+    cli.print = limited_print
+    try:
+        with contextlib.redirect_stdout(buf):
+            try:
+                args.func(args)
+            except _EnoughOutput:
+                pass
+    finally:
+        if had:
+            cli.print = old
+        else:
+            del cli.print
+    return buf.getvalue()
